@@ -33,6 +33,20 @@ CLAIMED = {
              "The dangling-else shape (if-else whose then-branch ends in an else-less if) is excluded from generation because its text denotes another tree.",
         technique="Lean 4 proof (mutual structural induction with flag invariants) + model/implementation correspondence",
         design="§4 C06"),
+    "C09": dict(
+        text="Lean theorems: the value the lexer computes for the standard base-2/10/16 numeral of every n < 2^128 is n "
+             "(`decimal_roundtrip`, `hex_roundtrip`, `bin_roundtrip`, with the C14 lemmas for every `_` placement and suffix), "
+             "n >= 2^128 is E140 (`decimal_too_big`), unary minus folds into decimal literals 1..2^127-1 (`minus_fold`), the "
+             "range lint fires iff the value is outside the type's range (`lint_iff_out_of_range`), in-range literals are "
+             "materialised exactly for all 11 integer types (`materialise_exact`). The stage-by-stage model is compared with the "
+             "real compiler end to end (printed run-time values through lli, E140/E141/E16x codes, L1142). Partial: escape "
+             "decoding of string/char literals is model + correspondence only.",
+        note="Trusted: Lean kernel, transcription of lexer/parser/linter/generator literal arms (checked by end-to-end correspondence), "
+             "`print!` and lli as the observation channel (print! stops at NUL: string content is compared up to the first NUL, "
+             "length exactly). Minus is only generated in front of decimal spellings (in front of 0x/0b it is an operator on an "
+             "unsigned bit pattern). F1 (usize mask) fixed; F2 (i128 minimum lint) known.",
+        technique="Lean 4 proof (numeral round trips, range/materialisation arithmetic by omega) + end-to-end correspondence",
+        design="§4 C09"),
     "C14": dict(
         text="Lean reference lexer (alpha's lexer arm by arm) with theorems: every fixed spelling (punctuation, keywords, type "
              "names: complete table) and every integer literal spelling (decimal / 0x / 0b, any `_` separator placement, any "
